@@ -140,6 +140,8 @@ class Real:
             res = pr.prune(st, cur)
         tags = []
         for w in ws:
+            if issubclass(w.category, ResourceWarning):
+                continue  # emitted by the garbage collector for some unrelated object (an unclosed file of an earlier case), not by prune
             text = str(w.message)
             for key, tag in WARN_KEYS:
                 if key in text:
